@@ -384,6 +384,9 @@ pub enum Strategy {
     /// submit the schedule with this index first, then always prefer delivering a pending coordination
     /// RPC over submitting another schedule (followers receive `validate` before their own schedule)
     RpcFirst(usize),
+    /// answers of coordination RPCs (with `gate_replies`) are delivered as late as possible: schedules,
+    /// requests and MPC messages all go first
+    RepliesLast,
 }
 
 #[derive(Clone)]
@@ -614,11 +617,16 @@ pub fn explore(sc: &Scenario) -> RunRecord {
             // pick
             let pick_msg_first = match &sc.strategy {
                 Strategy::Script(_) | Strategy::RpcFirst(_) => !msgs.is_empty(),
+                Strategy::RepliesLast => {
+                    let p = shared.pending.lock().unwrap();
+                    let non_reply = p.iter().any(|x| x.kind != RpcKind::Msg && x.kind != RpcKind::Reply);
+                    !msgs.is_empty() && to_submit.is_empty() && !non_reply
+                }
                 Strategy::Random(_) => !msgs.is_empty() && (n_choices == 0 || rng.random_bool(0.6)),
             };
             if pick_msg_first {
                 let id = match &sc.strategy {
-                    Strategy::Script(_) | Strategy::RpcFirst(_) => msgs[0],
+                    Strategy::Script(_) | Strategy::RpcFirst(_) | Strategy::RepliesLast => msgs[0],
                     // at most one message per (from, to) is outstanding, so any pending message may go first
                     Strategy::Random(_) => msgs[rng.random_range(0..msgs.len())],
                 };
@@ -636,6 +644,15 @@ pub fn explore(sc: &Scenario) -> RunRecord {
                     c % n_choices
                 }
                 Strategy::Random(_) => rng.random_range(0..n_choices),
+                Strategy::RepliesLast => {
+                    if !to_submit.is_empty() {
+                        0
+                    } else {
+                        let p = shared.pending.lock().unwrap();
+                        let pos = coord.iter().position(|id| p.iter().any(|x| x.id == *id && x.kind != RpcKind::Reply));
+                        to_submit.len() + pos.unwrap_or(0)
+                    }
+                }
                 Strategy::RpcFirst(first) => {
                     if choices.is_empty() { first % n_choices } else if !coord.is_empty() { to_submit.len() } else { 0 }
                 }
